@@ -118,6 +118,10 @@ def gen_literal(rng, kind, fs, derive_trait, bare_p=0.35, extra_names=(), allow_
     # positional args must precede named ones for format_args!
     args = [a for a in args if a[0] is None] + [a for a in args if a[0] is not None]
     info["bare"] = bare and nph == 1
+    if bare and rng.random() < 0.2:
+        # white space / text around a sole placeholder: no longer a bare placeholder
+        pieces.append(rng.choice([" ", "\n", "\t", "  "])) if rng.random() < 0.7 else pieces.insert(0, rng.choice([" ", "\n"]))
+        info["bare"] = False
     return "".join(pieces), args, info
 
 
